@@ -28,6 +28,12 @@ search       point x the grammar under sys.addaudithook; kernel-judged locations
              directory), and the same handle uses the string again; every use is judged against the arrangement
              current at that use (pathaudit.run_history), and differentially against the stateless model
              (hist-resolve / hist-arrow / hist-listing).
+             OBJECT STORE: S3StorageBackend over an in-memory client (harness/lib/mems3.py), 5 prefix configurations
+             (two-level, trailing slash, one level, three levels, none), conditional writes on / off, 17 entry points
+             x the path grammar ('..', '.', '', absolute, sibling-prefix names): every request key / listing Prefix
+             must be the table prefix or below it (opaque, component-wise), objects outside the prefix keep their
+             content, a listing returns existing keys below the prefix (oracle_s3); real _get_s3_key / listing
+             Prefix vs Gen/GenS3.v (s3-keys).
 """
 from __future__ import annotations
 
@@ -78,7 +84,9 @@ MANIFEST_ENTRY = {
                   "directories at or below it -- never through a directory link, inward or outward (C17_listing_scans_inside); every entry point of the table "
                   "regenerated from the source hands the OS only its guard's result or that result's parent (C17_entrypoints), also at "
                   "every step of a history in which the arrangement changes between uses of one handle -- a handle carries no "
-                  "validated-path state (C17_history_inside, C17_history_stateless); "
+                  "validated-path state (C17_history_inside, C17_history_stateless); on the object-store backend every request key and "
+                  "listing Prefix is the configured prefix + '/' + the path's bytes verbatim, hence under the table prefix, for every "
+                  "string (C17_s3_key_under_prefix, C17_s3_list_prefix_under_prefix, over Gen/GenS3.v regenerated from the source); "
                   "commonpath containment is component-wise prefix (C17_commonpath_prefix); fuel = number of links suffices "
                   "(C17_fuel_sufficient); the resolver as found is refuted by a concrete tree (C17_legacy_resolver_refuted). Model tied "
                   "to the code by golden-shape / taint translation of the guards and by differential execution against real symlink "
@@ -760,7 +768,7 @@ def oracle_s3(ctx) -> None:
                                         continue
                                     _o, prs = s3_case(entry, prefix, conditional, cand)
                                     prs = [pr for pr in prs if pr["rule"] in rules]
-                                    if prs:
+                                    if prs and _o == outcome:       # keep the symptom's strength (a read that SUCCEEDS stays one)
                                         best, problems, improved = cand, prs, True
                                         break
                             for pr in problems:
@@ -1160,7 +1168,8 @@ def run(ctx) -> None:
                 "every library call runs under a time limit, a memory limit and a hard limit (harness/lib/bounded.py); a case is "
                 "distinct by (arrangement, entry point, root spelling, string); histories: (handle kind) x (first-use entry point) x "
                 "(6 arrangement changes) x (second-use entry point) x affected strings x root spelling on ONE long-lived handle, plus "
-                "change / change-again sequences")
+                "change / change-again sequences; object store: 5 key-prefix configurations x conditional writes on/off x 17 entry points x "
+                "the path grammar over an in-memory bucket holding sibling-prefix, ancestor-level and bucket-root objects")
     ctx.trusted_base += [
         "translator/gen_path.py (golden AST shapes of canonical_path, _resolve_path, _get_arrow_path, list_files' guard, write guards; regenerated constants)",
         "Model/Path.v's rendering of CPython 3.12 posixpath.realpath/_joinrealpath/commonpath/relpath/join and of the kernel path walk "
